@@ -1,9 +1,7 @@
 package main
 
 import (
-	"encoding/json"
 	"fmt"
-	"os"
 
 	"github.com/google/pprof/internal/zzverif/vdrv"
 	"github.com/google/pprof/internal/zzverif/vlib"
@@ -11,18 +9,12 @@ import (
 )
 
 func main() {
-	var r struct {
-		Case struct {
-			Samples []vlib.ASample `json:"samples"`
-		} `json:"case"`
-	}
-	b, _ := os.ReadFile(os.Args[1])
-	json.Unmarshal(b, &r)
-	p := vlib.NewConc(0).Profile(vlib.AProf{ST: []vlib.AVT{{T: "s1", U: "count"}, {T: "s2", U: "count"}}, Samples: r.Case.Samples})
-	for _, nf := range []string{"0", "0.5"} {
-		args := []string{"-tree", "-functions", "-flat", "-sample_index=s2", "-nodecount=0", "-edgefraction=0", "-nodefraction=" + nf, "-output=out", "src"}
-		res := vdrv.Run(vdrv.Opts{Args: args, Fetch: func(string) (*profile.Profile, error) { return p.Copy(), nil }})
-		fmt.Println(args, res.Err)
-		fmt.Println(res.File("out"))
+	f := vlib.AFn{Name: "f", Sys: "f", File: "a.c"}
+	m := vlib.AMap{Build: "B01", File: "bin", Start: 16, Size: 8}
+	p := vlib.NewConc(0).Profile(vlib.AProf{ST: []vlib.AVT{{T: "s1", U: "count"}}, Samples: []vlib.ASample{{Locs: []vlib.ALoc{{Map: m, Rel: 3, Lines: []vlib.ALine{{Fn: f, Line: 10}}}}, Vals: []int64{1}}}})
+	for _, lines := range [][]string{{"lines", "top >o"}, {"lines=true", "top >o"}, {"cum", "top >o"}, {"granularity=lines", "top >o"}, {"compact_labels", "o"}} {
+		res := vdrv.Run(vdrv.Opts{Args: []string{"-functions", "-flat", "src"}, Lines: lines, Fetch: func(string) (*profile.Profile, error) { return p.Copy(), nil }})
+		fmt.Println(lines, "err:", res.Err, "uierr:", res.UIErr)
+		fmt.Println(res.File("o"))
 	}
 }
